@@ -369,8 +369,8 @@ def run(argv, stdin=None, cwd=None, env=None, timeout=20, as_limit=None, fsize=N
         for f in (cap_out, cap_err):
             if f is not None:
                 f.close()
-        if _retry and stdout is None and not hasattr(stdin, "read"):
-            return run(argv, stdin=stdin, cwd=cwd, env=env, timeout=4 * timeout, as_limit=as_limit, fsize=fsize, stdout=stdout, _retry=False)
+    if o.timed_out and _retry and stdout is None and not hasattr(stdin, "read"):
+        return run(argv, stdin=stdin, cwd=cwd, env=env, timeout=4 * timeout, as_limit=as_limit, fsize=fsize, stdout=stdout, _retry=False)
     o.wall = time.time() - t0
     o.signal = -o.rc if (o.rc is not None and o.rc < 0) else None
     o.san = bool(_SAN_RE.search(o.err)) or o.rc in (98, 99)
